@@ -37,6 +37,9 @@ var allSteps = []step{
 	{"SetCustomPayload(nil)", 'P', 0}, {"SetCustomPayload(empty)", 'P', 1}, {"SetCustomPayload(1)", 'P', 2}, {"SetCustomPayload(3)", 'P', 3},
 	{"SetWarnings(nil)", 'W', 0}, {"SetWarnings(empty)", 'W', 1}, {"SetWarnings(1)", 'W', 2}, {"SetWarnings(3)", 'W', 3},
 	{"tracing(off)", 'T', 0}, {"tracing(on)", 'T', 1},
+	// SetTracingId on a request: "The tracing id. Only valid for response frames, ignored otherwise" - the id must be
+	// ignored on the wire, the TRACING flag it sets asks for tracing
+	{"SetTracingId(nil)@request", 'I', 0}, {"SetTracingId(id)@request", 'I', 1},
 	{"SetCompress(false)", 'C', 0}, {"SetCompress(true)", 'C', 1},
 }
 
@@ -72,6 +75,9 @@ func stepsFor(v ref.Version, response bool) []step {
 			continue
 		}
 		if s.kind == 'W' && !response {
+			continue
+		}
+		if s.kind == 'I' && response {
 			continue
 		}
 		out = append(out, s)
@@ -112,10 +118,45 @@ func apply(f *frame.Frame, m *model, s step, salt int, response bool) {
 			f.RequestTracingId(s.arg == 1)
 			m.tracing = s.arg == 1
 		}
+	case 'I':
+		if s.arg == 1 {
+			id := primitive.UUID{9, 9, 9, byte(salt)}
+			f.SetTracingId(&id)
+			m.id = &id
+		} else {
+			f.SetTracingId(nil)
+			m.id = nil
+		}
+		m.tracing = s.arg == 1
 	case 'C':
 		f.SetCompress(s.arg == 1)
 		m.compress = s.arg == 1
 	}
+}
+
+// bodyState: the optional parts the frame body actually holds must be what the last mutator call stored (nil and
+// empty are the same), so that the flags, which were just checked against the model, also describe the body.
+func bodyState(f *frame.Frame, m *model, response bool) string {
+	if len(f.Body.CustomPayload) != len(m.payload) {
+		return "custom-payload-held-differs-from-last-SetCustomPayload"
+	}
+	for k, v := range m.payload {
+		if w, ok := f.Body.CustomPayload[k]; !ok || !bytes.Equal(v, w) {
+			return "custom-payload-held-differs-from-last-SetCustomPayload"
+		}
+	}
+	if len(f.Body.Warnings) != len(m.warnings) {
+		return "warnings-held-differ-from-last-SetWarnings"
+	}
+	for i := range m.warnings {
+		if f.Body.Warnings[i] != m.warnings[i] {
+			return "warnings-held-differ-from-last-SetWarnings"
+		}
+	}
+	if (f.Body.TracingId == nil) != (m.id == nil) || (m.id != nil && *f.Body.TracingId != *m.id) {
+		return "tracing-id-held-differs-from-last-SetTracingId"
+	}
+	return ""
 }
 
 func compressible(op byte) bool {
@@ -168,6 +209,11 @@ func runSeq(c *mon.Ctx, cs gen.Case, seq []step, salt int) {
 	}
 	for i, s := range seq {
 		apply(f, m, s, salt+i, a.Response)
+		if what := bodyState(f, m, a.Response); what != "" {
+			c.Violation(fmt.Sprintf("mutators/body/%s/after=%s", what, strings.SplitN(s.name, "(", 2)[0]+argClass(s)),
+				seqDetail{cs.Kind, a.Version.String(), names(i + 1), what, fmt.Sprintf("%#02x", byte(f.Header.Flags)), "", c.Seed, ""})
+			return
+		}
 		if want := expectedFlags(m, op); f.Header.Flags != want {
 			c.Violation(fmt.Sprintf("mutators/flags/after=%s/%s", strings.SplitN(s.name, "(", 2)[0]+argClass(s), dirOf(a)),
 				seqDetail{cs.Kind, a.Version.String(), names(i + 1), "header flags do not reflect the optional body parts present", fmt.Sprintf("%#02x", byte(f.Header.Flags)), fmt.Sprintf("%#02x", byte(want)), c.Seed, ""})
@@ -380,7 +426,7 @@ type call struct {
 func argsFor(acc int) []string {
 	switch accessors[acc].name {
 	case "Compression":
-		return []string{"NONE", "LZ4", "SNAPPY"}
+		return []string{"NONE", "LZ4", ""}
 	case "ThrowOnOverload":
 		return []string{"true", "false"}
 	}
@@ -521,7 +567,7 @@ func startup(c *mon.Ctx) {
 			case "ThrowOnOverload":
 				arg = []string{"true", "false"}[r.Intn(2)]
 			case "Compression":
-				arg = []string{"NONE", "LZ4", "SNAPPY"}[r.Intn(3)]
+				arg = []string{"NONE", "LZ4", "SNAPPY", "", "lz4", "none", "zstd", "a\x00b"}[r.Intn(8)]
 			default:
 				arg = pool[r.Intn(len(pool))]
 			}
